@@ -29,7 +29,8 @@ ASSUMPTIONS = [
 def strategy(tier):
     return sched.sched_specs(quiet=True, adaptive=True, empty_ok=True,
                              all_quiet_ok=True,
-                             precisions=(None, None, None, 1, 2, 5))
+                             precisions=(None, None, None, 1, 2, 5),
+                             state_cond=True)
 
 
 def run_case(spec):
